@@ -157,6 +157,20 @@ def same_rgba_case(rng, fmt):
     return {"id": f"same-rgba:{fmt}:{rng.getrandbits(32)}", "seed": 0, "fmt": fmt, "svgs": [svg], "config": cfg, "codepoints": [[0xE000]]}
 
 
+def group_no_black_case(rng, fmt):
+    """a translucent group (its opacity is carried by a black PaintSolid OUTSIDE any PaintGlyph) in a font that uses black nowhere else: the palette
+    must still provide every colour the paint graph references"""
+    a, b = rng.sample(["#FF0000", "#00AA00", "#0000FF", "#FFCC00"], 2)
+    # an explicit slot directly after the free ones (no gap: gaps are filled with black, which would hide a missing black)
+    idx = rng.choice([None, None, 1])
+    fa = a if idx is None else f"var(--color{idx}, {a})"
+    svg = ('<svg xmlns="http://www.w3.org/2000/svg" viewBox="0 0 100 100">'
+           f'<g opacity="{rng.choice([0.6, 0.5, 0.25])}"><path d="M10,10 L60,10 L60,60 L10,60 Z" fill="{fa}"/><path d="M40,40 L90,40 L90,90 L40,90 Z" fill="{b}"/></g>'
+           f'<path d="M5,70 L30,70 L30,95 L5,95 Z" fill="{b}"/></svg>')
+    cfg = {"color_format": fmt, "upem": 1024, "ascender": 950, "descender": -250, "width": 1275, "reuse_tolerance": rng.choice([0.1, -1]), "keep_glyph_names": True}
+    return {"id": f"group-no-black:{fmt}:{rng.getrandbits(32)}", "seed": 0, "fmt": fmt, "svgs": [svg], "config": cfg, "codepoints": [[0xE000]], "family": "group-no-black"}
+
+
 def suite_fonts(ctx, res, n):
     """CPAL + palette indices of real COLRv0/v1 builds (K-pipe)."""
     from harness import fontgen
@@ -164,11 +178,16 @@ def suite_fonts(ctx, res, n):
     cases = list(fontgen.gen_cases(ctx.rng, n, formats=["glyf_colr_1", "glyf_colr_0"], want_palette_indices=True))
     cases += [same_rgba_case(ctx.rng, ["glyf_colr_1", "glyf_colr_0"][i % 2]) for i in range(max(4, n // 6))]
     cases += [fontgen.make_var_opacity_case(ctx.rng.getrandbits(32), fmt=["glyf_colr_1", "glyf_colr_0"][i % 2]) for i in range(max(4, n // 6))]
+    cases += [group_no_black_case(ctx.rng, ["glyf_colr_1", "glyf_colr_0", "cff_colr_1"][i % 3]) for i in range(max(3, n // 8))]
     for case in cases:
         out = fontgen.build(case)
         res.count(key=("font", stable_hash(case["id"])), nontrivial=True)
         if "err" in out:
             res.stat("font:err:" + out["err"])
+            if case.get("family") in ("group-no-black", "var-opacity") or case["id"].startswith("same-rgba"):
+                # these families declare no conflicting palette slots: a failure to build means a colour could not be resolved
+                res.add_cex("a font whose colours claim no conflicting palette slot fails to build: " + out["err"], {"case": case, "trace": out.get("trace")},
+                            {"site": "font-cpal-build", "case": case["id"]})
             continue
         res.stat("font:ok")
         fontgen.check_palette_of_font(ctx, res, case, out)
